@@ -182,6 +182,46 @@ class _Renamer(ast.NodeTransformer):
         return n
 
 
+class _ConstTests(ast.NodeTransformer):
+    """After an argument that is a literal took a parameter's place: `A if None is not None else B` is B, `if None is None: S`
+    is S.  Only tests made of literals are decided; everything else is left."""
+
+    @staticmethod
+    def _value(t):
+        if isinstance(t, ast.Constant):
+            return True, t.value
+        if isinstance(t, ast.UnaryOp) and isinstance(t.op, ast.Not):
+            ok, v = _ConstTests._value(t.operand)
+            return (True, not v) if ok else (False, None)
+        if isinstance(t, ast.Compare) and len(t.ops) == 1 and isinstance(t.left, ast.Constant) and isinstance(t.comparators[0], ast.Constant):
+            a, b = t.left.value, t.comparators[0].value
+            singletons = (None, True, False)
+            op = t.ops[0]
+            if isinstance(op, (ast.Is, ast.IsNot)):
+                if not (any(a is x for x in singletons) or any(b is x for x in singletons)):
+                    return False, None  # identity of other literals is an implementation matter
+                r = a is b
+                return True, (r if isinstance(op, ast.Is) else not r)
+            if isinstance(op, (ast.Eq, ast.NotEq)) and type(a) is type(b):
+                return True, ((a == b) if isinstance(op, ast.Eq) else (a != b))
+        return False, None
+
+    def visit_IfExp(self, n):
+        self.generic_visit(n)
+        ok, v = self._value(n.test)
+        if ok:
+            return n.body if v else n.orelse
+        return n
+
+    def visit_If(self, n):
+        self.generic_visit(n)
+        ok, v = self._value(n.test)
+        if ok and not isinstance(n.test, ast.Constant):
+            arm = n.body if v else n.orelse
+            return arm if arm else ast.copy_location(ast.Pass(), n)
+        return n
+
+
 # --------------------------------------------------------------------------- the pass
 class Inliner:
     def __init__(self, project, snapshot):
@@ -273,8 +313,23 @@ class Inliner:
                 break
             self.waiting = 0
             P._reindex()
+        # objects whose construction only became visible by reading a factory (`offer = Offer.build(…)` → `offer = Offer(…)`)
+        if self._object_pass():
+            total += 1
+            for _ in range(MAX_ROUNDS):
+                new = {fi.fq: fi for fi in P.funcs.values() if self.is_new(fi)}
+                changed = sum(self._process_function(caller, new) for caller in list(P.funcs.values()))
+                total += changed
+                if not changed:
+                    break
+                P._reindex()
         total += self._expression_pass()
         if total:
+            from .normalize import normalize
+
+            for m in P.modules.values():
+                normalize(m.tree)  # what was read in at the call sites gets the same single spelling as the rest
+                ast.fix_missing_locations(m.tree)
             self._drop_unused()
             P._reindex()
         return total
@@ -325,25 +380,23 @@ class Inliner:
                     cands.setdefault(tgt, []).append((x, ci))
         done = 0
         for v, defs in cands.items():
-            if len(defs) != 1:
+            if len({id(ci_) for _s, ci_ in defs}) != 1:
                 continue
             stmt, ci = defs[0]
-            # every binding of the name is this one; parameters and loop targets of the same name disqualify
-            if sum(1 for x in _own(fn) if isinstance(x, ast.Name) and x.id == v and isinstance(x.ctx, ast.Store)) != 1 or v in {a.arg for a in fn.args.args + fn.args.kwonlyargs}:
+            # every binding of the name is a construction of this class; parameters and loop targets of the same name disqualify
+            if sum(1 for x in _own(fn) if isinstance(x, ast.Name) and x.id == v and isinstance(x.ctx, ast.Store)) != len(defs) or v in {a.arg for a in fn.args.args + fn.args.kwonlyargs}:
                 continue
             methods = {f.name: f for f in self.P.funcs.values() if f.cls is ci and f.parent is None}
             props = {m: f for m, f in methods.items() if any(ast.unparse(d) == "property" for d in f.node.decorator_list)}
             work = copy.deepcopy(fn)
-            # the copy's own constructor statement
-            wstmt = None
-            for x in _own(work):
-                if isinstance(x, (ast.Assign, ast.AnnAssign)) and ast.unparse(x) == ast.unparse(stmt):
-                    wstmt = x
-            if wstmt is None:
+            # the copy's own constructor statements
+            texts = {ast.unparse(s_) for s_, _c in defs}
+            wstmts = [x for x in _own(work) if isinstance(x, (ast.Assign, ast.AnnAssign)) and ast.unparse(x) in texts]
+            if len(wstmts) != len(defs):
                 continue
             self._local_obj = (v, ci, methods)
             try:
-                ok = self._inline_object_uses(caller, work, wstmt, v, ci, methods, props)
+                ok = self._inline_object_uses(caller, work, wstmts, v, ci, methods, props)
             finally:
                 self._local_obj = None
             if not ok:
@@ -354,33 +407,34 @@ class Inliner:
             done += 1
         return done
 
-    def _inline_object_uses(self, caller, work, wstmt, v, ci, methods, props) -> bool:
+    def _inline_object_uses(self, caller, work, wstmts, v, ci, methods, props) -> bool:
         from .model import FuncInfo
 
-        # 1. the constructor: `v = C(args)` → the body of __init__ with self := v
+        # 1. the constructor(s): `v = C(args)` → the body of __init__ with self := v
         init = methods.get("__init__")
-        call = wstmt.value
-        holder_field = None
-        for holder, field in self._stmt_lists(work):
-            if wstmt in getattr(holder, field):
-                holder_field = (holder, field)
-        if holder_field is None:
-            return False
-        holder, field = holder_field
-        stmts = getattr(holder, field)
-        i = stmts.index(wstmt)
-        if init is None:
-            if call.args or call.keywords:
+        for wstmt in (wstmts if isinstance(wstmts, list) else [wstmts]):
+            call = wstmt.value
+            holder_field = None
+            for holder, field in self._stmt_lists(work):
+                if wstmt in getattr(holder, field):
+                    holder_field = (holder, field)
+            if holder_field is None:
                 return False
-            stmts[i:i + 1] = [ast.copy_location(ast.Pass(), wstmt)]
-        else:
-            if self.inlinable_def_init(init) is not None:
-                return False
-            fake = ast.Expr(value=ast.Call(func=ast.Attribute(value=ast.Name(id=v, ctx=ast.Load()), attr="__init__", ctx=ast.Load()), args=call.args, keywords=call.keywords))
-            ast.copy_location(fake, wstmt)
-            ast.fix_missing_locations(fake)
-            rep = self._expand(caller, fake, "expr", fake.value, init, False)
-            stmts[i:i + 1] = rep
+            holder, field = holder_field
+            stmts = getattr(holder, field)
+            i = stmts.index(wstmt)
+            if init is None:
+                if call.args or call.keywords:
+                    return False
+                stmts[i:i + 1] = [ast.copy_location(ast.Pass(), wstmt)]
+            else:
+                if self.inlinable_def_init(init) is not None:
+                    return False
+                fake = ast.Expr(value=ast.Call(func=ast.Attribute(value=ast.Name(id=v, ctx=ast.Load()), attr="__init__", ctx=ast.Load()), args=call.args, keywords=call.keywords))
+                ast.copy_location(fake, wstmt)
+                ast.fix_missing_locations(fake)
+                rep = self._expand(caller, fake, "expr", fake.value, init, False)
+                stmts[i:i + 1] = rep
         # 2. method calls, to a fixpoint
         for _round in range(12):
             changed = False
@@ -836,6 +890,8 @@ class Inliner:
             return None
         if "staticmethod" in deco:
             return None
+        if "classmethod" in deco and isinstance(f.value, ast.Name) and f.value.id == getattr(g.cls, "name", None):
+            return None  # `Offer.build(…)`: the factory's `cls` is the class named at the call
         # another object, named by a plain reference (`rec`, `self.sessions[sid]`, `entry.info`): the method's `self` is that reference
 
         def plain(e):
@@ -912,6 +968,13 @@ class Inliner:
             body = body[1:]
         rn = _Renamer(rename, subst)
         body = [rn.visit(x) for x in body]
+        if any(isinstance(a, ast.Constant) for a in subst.values()):
+            ct = _ConstTests()
+            folded: List[ast.stmt] = []
+            for x in body:
+                r = ct.visit(x)
+                folded += r if isinstance(r, list) else [r]
+            body = folded or [ast.copy_location(ast.Pass(), s)]
 
         if kind == "return":
             out = prologue + body
